@@ -1162,7 +1162,8 @@ class ArgumentParser(ParserDeprecations, ActionsContainer, ArgumentLinking, argp
                     ) from ex
             subcommand, subparser = _ActionSubCommands.get_subcommand(parser, cfg, fail_no_subcommand=False)
             if subcommand is not None and subparser is not None:
-                check_required(cfg.get(subcommand), subparser, prefix + subcommand + ".")
+                subcfg = cfg.get(subcommand)  # (absent when parsed with defaults=False and nothing was given for it)
+                check_required(subcfg if isinstance(subcfg, Namespace) else Namespace(), subparser, prefix + subcommand + ".")
 
         def check_values(cfg):
             sorted_keys = {k: _find_action(self, k) for k in cfg.get_sorted_keys()}
